@@ -468,14 +468,16 @@ def run(ctx):
         'the optimizer never removes or rewrites a pseudo-instruction',
         'acceptance is flag-independent',
     ]
-    ctx.not_decided = ['that the different peephole windows induced by '
-                       'markers yield behaviourally equal code; the RESUME '
-                       'exception']
+    ctx.not_decided = ['behavioural equality beyond windows of three '
+                       'instructions over the representative alphabet; the '
+                       'RESUME exception']
     flag_slice(ctx)
     assembler_transparency(ctx)
     optimizer_window(ctx)
     acceptance(ctx)
     sections_not_derived_from_code(ctx)
+    from .. import peephole
+    peephole.check_markers(ctx, 'C08')
     from .. import gensim
     gensim.check_flag_equivalence(ctx, 'C08')
     return ('Control-dependence slice of the debug flag over the CFGs of '
